@@ -198,8 +198,23 @@ def run_property(build_mod: str, pid: str, argv=None) -> int:
     reports = []
     if jobs:
         if a.jobs > 1 and len(jobs) > 1:
-            with mp.get_context("fork").Pool(min(a.jobs, len(jobs))) as pool:
-                reports = pool.map(_verify_one, jobs, chunksize=1)
+            # every function gets a wall-clock budget: symbolic execution of a restructured function (or a solver call inside it) must not
+            # keep the whole check alive - past the budget the function is reported as undecided and the workers are stopped
+            budget = float(os.environ.get("PYVC_FUNCTION_BUDGET_S", "900"))
+            pool = mp.get_context("fork").Pool(min(a.jobs, len(jobs)))
+            try:
+                handles = [(j, pool.apply_async(_verify_one, (j,))) for j in jobs]
+                t_start = time.time()
+                for j, h in handles:
+                    try:
+                        reports.append(h.get(timeout=max(1.0, budget - (time.time() - t_start))))
+                    except mp.TimeoutError:
+                        reports.append({"key": j[5], "info": {}, "obligations": [], "paths": 0, "infeasible": 0, "inlined": [], "dropped": [], "assumed": {}, "axioms": [],
+                                        "used_contracts": [], "error": f"verification of this function did not finish within {budget:.0f} s (stopped)",
+                                        "error_kind": "unsupported", "time_s": budget})
+            finally:
+                pool.terminate()
+                pool.join()
         else:
             reports = [_verify_one(j) for j in jobs]
     all_obs = []
